@@ -5,7 +5,7 @@ let fnv_bytes (l : n list) : int64 = List.fold_left (fun h b -> fnv_step h (int_
 let hex64 (h : int64) : string = Printf.sprintf "%Lx" h
 
 let payload seed n : n list =
-  List.init n (fun i -> n_of_int ((seed + i * 13 + (i / 256) * 7) land 255))
+  List.init n (fun i -> byte_n (seed + i * 13 + (i / 256) * 7))
 
 let show_writes (ws : wr list) : string =
   String.concat "" (string_of_int (List.length ws) ::
